@@ -11,8 +11,17 @@ I, R, B = z3.IntSort(), z3.RealSort(), z3.BoolSort()
 _n = itertools.count()
 
 
+_last = [0]
+
+
 def fresh_name(base):
-    return f"{base}!{next(_n)}"
+    _last[0] = next(_n)
+    return f"{base}!{_last[0]}"
+
+
+def fresh_mark():
+    """all fresh symbols created from now on have an index greater than the returned mark"""
+    return _last[0]
 
 
 def fresh(base, sort):
